@@ -294,28 +294,65 @@ def _node(n: NFA, alpha: Alphabet, op, av, s: int, t: int):
 
 
 # ------------------------------------------------------------------ configurations
-# A configuration is (main state, frozenset of obligations); an obligation is (positive, id(sub nfa), frozenset(states)).
+# A configuration is (main state, frozenset of obligations).  An obligation is (positive, id of the sub-machine, state of
+# that sub-machine), where a sub-machine state is itself a frozenset of configurations: look-aheads nest.
 class Machine:
     def __init__(self, nfa: NFA, nclasses: int):
         self.n = nfa
         self.k = nclasses
-        self.subs: dict[int, NFA] = {}
-        self._closure_cache: dict = {}
+        self.subs: dict[int, "Machine"] = {}
 
-    def _sub_closure(self, sub: NFA, states: Iterable[int], at_end: bool = False) -> frozenset:
-        seen = set()
-        todo = list(states)
-        while todo:
-            q = todo.pop()
-            if q in seen:
-                continue
-            seen.add(q)
-            todo.extend(sub.eps[q])
-            if at_end:
-                todo.extend(sub.ends[q])
-            if sub.asserts[q]:
-                raise Unsupported("nested look-ahead inside a look-ahead")
-        return frozenset(seen)
+    def sub(self, nfa: NFA) -> "Machine":
+        m = self.subs.get(id(nfa))
+        if m is None:
+            m = Machine(nfa, self.k)
+            self.subs[id(nfa)] = m
+        return m
+
+    def _lookup(self, sid: int) -> "Machine":
+        if sid in self.subs:
+            return self.subs[sid]
+        for m in self.subs.values():
+            try:
+                return m._lookup(sid)
+            except KeyError:
+                pass
+        raise KeyError(sid)
+
+    # -- resolving obligations -------------------------------------------------------------------------------------------
+    def _resolve(self, obs: frozenset) -> list:
+        """Given a set of obligations, return the alternative obligation sets after discharging whatever is already
+        decided: a positive one whose sub-machine has an accepting configuration may be replaced by that configuration's own
+        pending obligations; a negative one with an unconditional accept kills the alternative (returns [])."""
+        alts = [frozenset()]
+        for ob in obs:
+            positive, sid, st = ob
+            sm = self._lookup(sid)
+            acc = [o for q, o in st if q == sm.n.accept]
+            nxt = []
+            if positive:
+                choices = [frozenset([ob])] if any(True for q, o in st if q != sm.n.accept or True) else []
+                # keep waiting (only useful if some configuration can still move)
+                movable = any(sm.n.sym[q] for q, o in st)
+                choices = ([frozenset([ob])] if movable else []) + [frozenset(o) for o in acc]
+                if not choices:
+                    return []
+                for a in alts:
+                    for c in choices:
+                        nxt.append(a | c)
+            else:
+                if any(not o for o in acc):
+                    return []
+                if acc:
+                    raise Unsupported("negative look-ahead whose body ends in a nested look-ahead")
+                live = frozenset((q, o) for q, o in st)
+                if not live:
+                    nxt = alts  # can never match: satisfied
+                else:
+                    nxt = [a | frozenset([ob]) for a in alts]
+            alts = nxt
+        # de-duplicate
+        return list(dict.fromkeys(alts))
 
     def closure(self, configs: Iterable[tuple], at_end: bool = False) -> frozenset:
         out = set()
@@ -330,66 +367,53 @@ class Machine:
             if at_end:
                 for r in self.n.ends[q]:
                     todo.append((r, obs))
-            for positive, sub, ss, sa, dst in self.n.asserts[q]:
-                self.subs[id(sub)] = sub
-                st = self._sub_closure(sub, [ss])
-                if sub.accept in st:
-                    if positive:
-                        todo.append((dst, obs))  # satisfied at once
-                    # negative: fails at once
-                    continue
-                todo.append((dst, obs | frozenset([(positive, id(sub), st)])))
+            for positive, subn, ss, sa, dst in self.n.asserts[q]:
+                sm = self.sub(subn)
+                st = sm.closure([(ss, frozenset())])
+                for alt in self._resolve(frozenset([(positive, id(subn), st)])):
+                    todo.append((dst, obs | alt))
         return frozenset(out)
 
     def start(self) -> frozenset:
         return self.closure([(self.n.start, frozenset())])
 
+    def _step_obs(self, obs: frozenset, c: int) -> list:
+        """Advance every obligation by one symbol; returns the alternative obligation sets (possibly none)."""
+        moved = set()
+        for positive, sid, st in obs:
+            sm = self._lookup(sid)
+            nst = sm.step(st, c)
+            if not nst:
+                if positive:
+                    return []
+                continue  # negative: can no longer match
+            moved.add((positive, sid, nst))
+        return self._resolve(frozenset(moved))
+
     def step(self, state: frozenset, c: int) -> frozenset:
         nxt = []
         for q, obs in state:
-            for cls, r in self.n.sym[q]:
-                if c not in cls:
-                    continue
-                new_obs = set()
-                dead = False
-                for positive, sid, st in obs:
-                    sub = self.subs[sid]
-                    moved = set()
-                    for x in st:
-                        for cl2, y in sub.sym[x]:
-                            if c in cl2:
-                                moved.add(y)
-                    moved = self._sub_closure(sub, moved)
-                    if sub.accept in moved:
-                        if positive:
-                            continue  # satisfied
-                        dead = True
-                        break
-                    if not moved:
-                        if positive:
-                            dead = True
-                            break
-                        continue  # negative can no longer match: satisfied
-                    new_obs.add((positive, sid, moved))
-                if not dead:
-                    nxt.append((r, frozenset(new_obs)))
+            targets = [r for cls, r in self.n.sym[q] if c in cls]
+            if not targets:
+                continue
+            for alt in self._step_obs(obs, c):
+                for r in targets:
+                    nxt.append((r, alt))
         return self.closure(nxt)
 
+    def _obs_ok_at_end(self, obs: frozenset) -> bool:
+        for positive, sid, st in obs:
+            sm = self._lookup(sid)
+            hit = sm.accepting(st)
+            if positive != hit:
+                return False
+        return True
+
     def accepting(self, state: frozenset) -> bool:
-        """At end of text: main thread accepts (\\Z edges passable), pending positive look-aheads must accept on the
-        empty rest, pending negative ones are satisfied unless they accept on the empty rest."""
+        """At end of text: the main thread accepts (\\Z edges passable), pending positive look-aheads must accept on the
+        empty rest, pending negative ones must not."""
         for q, obs in self.closure(state, at_end=True):
-            if q != self.n.accept:
-                continue
-            ok = True
-            for positive, sid, st in obs:
-                sub = self.subs[sid]
-                fin = self._sub_closure(sub, st, at_end=True)
-                hit = sub.accept in fin
-                if positive != hit:
-                    ok = False
-                    break
-            if ok:
+            if q == self.n.accept and self._obs_ok_at_end(obs):
                 return True
         return False
 
